@@ -210,6 +210,8 @@ impl System for RkSys {
 			RkAct { price: ulp_up(nl), vol: 0.0, what: "ulp-above-lower" },
 			RkAct { price: ulp_dn(nl), vol: 1.0, what: "ulp-below-lower" },
 			RkAct { price: (lu + ll) * 0.5, vol: 4.0, what: "mid-brick" },
+			// two of these overflow the accumulated volume to +inf: the emission after the next one starts from 0 again
+			RkAct { price: (lu + ll) * 0.5, vol: V::MAX * 0.75, what: "mid-brick-with-three-quarters-of-the-largest-finite-volume" },
 			RkAct { price: lu * (1.0 + 1.5 * b), vol: 1.0, what: "up-1.5-bricks" },
 			RkAct { price: lu * (1.0 + 2.0 * b), vol: 4.0, what: "up-2-bricks" },
 			RkAct { price: lu * (1.0 + 3.5 * b), vol: 1.0, what: "up-3.5-bricks" },
@@ -360,12 +362,15 @@ impl System for RkSys {
 			if b.sign() as f64 != dir {
 				return Step::Violation(Failure::new("Renko/output/brick-sign", format!("brick {i} sign {}", b.sign())));
 			}
-			vol += b.volume as f64;
+			vol += b.volume as f64 / 1024.0; // (scaled: the plain sum of bricks near the largest finite value would overflow in the harness)
 		}
-		if (vol - n.vol_acc).abs() > 16.0 * e * (n.vol_acc.abs() + 1.0) * (len as f64) {
+		// (NaN-safe: an accumulated volume that overflowed to +inf must be carried as +inf, and anything
+		// that is not within the tolerance - NaN included - is a failure)
+		let vol_ok = |got: f64, acc: f64| if acc.is_infinite() { got == acc } else { (got - acc).abs() <= 16.0 * e * (acc.abs() + 1.0) * (len as f64) };
+		if !vol_ok(vol * 1024.0, n.vol_acc) && !vol_ok(vol, n.vol_acc / 1024.0) {
 			return Step::Violation(Failure::new("Renko/output/volume", format!("bricks carry volume {vol:?}, consumed since the last emission {:?}", n.vol_acc)));
 		}
-		if (out.volume() as f64 - n.vol_acc).abs() > 16.0 * e * (n.vol_acc.abs() + 1.0) * (len as f64) || out.sign() as f64 != dir || out.is_rising() != reached_up || out.is_falling() != reached_dn {
+		if !vol_ok(out.volume() as f64, n.vol_acc) || out.sign() as f64 != dir || out.is_rising() != reached_up || out.is_falling() != reached_dn {
 			return Step::Violation(Failure::new("Renko/output/ohlcv-view", format!("volume {:?} sign {}", out.volume(), out.sign())));
 		}
 		// (RenkoOutput's OHLCV close is base + size*len, an absolute step, and so differs from the last
